@@ -45,6 +45,8 @@ enum Fault {
     Append,
     Flush,
     AfterSync,
+    /// frame append fails after part of the record reached the segment file (filesystem only)
+    Torn,
 }
 
 fn fault_of(s: &str) -> Fault {
@@ -53,6 +55,7 @@ fn fault_of(s: &str) -> Fault {
         "a" => Fault::Append,
         "f" => Fault::Flush,
         "s" => Fault::AfterSync,
+        "t" => Fault::Torn,
         _ => panic!("fault {s}"),
     }
 }
@@ -71,6 +74,9 @@ trait TStore: WalStorePort {
     /// Returns (label, result-before-truncation, result-after-writable-recovery).
     fn crash_points(&self, pre: &Snapshot) -> Vec<CrashPoint>;
     fn snapshot(&self) -> Snapshot;
+    /// Leaves a partially written record at the end of the segment (after an injected append failure).
+    fn tear(&mut self);
+    fn is_torn(&self) -> bool;
 }
 
 type CrashPoint = (String, Result<ExternalActionCoordinatorV1, PErr>, Result<ExternalActionCoordinatorV1, PErr>, Option<String>);
@@ -186,7 +192,7 @@ fn base_ctx(label: &str, epoch: WriterEpochId, mode: WalDurabilityMode) -> Exter
 
 impl TStore for MemStore {
     fn arm(&mut self, f: Fault) {
-        self.fault = f;
+        self.fault = if f == Fault::Torn { Fault::Append } else { f };
     }
     fn disarm(&mut self) {
         self.fault = Fault::None;
@@ -200,6 +206,12 @@ impl TStore for MemStore {
     fn reopen(&mut self) {}
     fn snapshot(&self) -> Snapshot {
         Snapshot::Mem(self.inner.clone())
+    }
+    fn tear(&mut self) {
+        panic!("torn-tail fault is defined for the filesystem store only");
+    }
+    fn is_torn(&self) -> bool {
+        false
     }
     fn crash_points(&self, pre: &Snapshot) -> Vec<CrashPoint> {
         let Snapshot::Mem(pre) = pre else { return Vec::new() };
@@ -226,6 +238,7 @@ struct FsStore {
     inner: Option<FilesystemWalStore>,
     root: PathBuf,
     epoch: WriterEpochId,
+    torn: bool,
 }
 
 impl FsStore {
@@ -237,7 +250,7 @@ impl FsStore {
     fn new(root: PathBuf) -> Self {
         std::fs::create_dir_all(&root).expect("mkdir");
         let (st, epoch) = Self::open_at(&root);
-        FsStore { inner: Some(st), root, epoch }
+        FsStore { inner: Some(st), root, epoch, torn: false }
     }
     fn st(&self) -> &FilesystemWalStore {
         self.inner.as_ref().expect("fs store")
@@ -310,7 +323,7 @@ impl TStore for FsStore {
     fn arm(&mut self, f: Fault) {
         let plan = match f {
             Fault::None => FilesystemWalFaultPlan::default(),
-            Fault::Append => FilesystemWalFaultPlan::fail_next(FilesystemWalFaultTarget::AppendFrame),
+            Fault::Append | Fault::Torn => FilesystemWalFaultPlan::fail_next(FilesystemWalFaultTarget::AppendFrame),
             Fault::Flush => FilesystemWalFaultPlan::fail_next(FilesystemWalFaultTarget::FlushCommit),
             Fault::AfterSync => FilesystemWalFaultPlan::fail_next(FilesystemWalFaultTarget::CommitMarkerSynced),
         };
@@ -321,6 +334,20 @@ impl TStore for FsStore {
     }
     fn truncate_tail(&mut self) {
         let _ = recover_filesystem_store(&self.root, RecoveryAccessMode::Writable);
+        self.torn = false;
+    }
+    fn tear(&mut self) {
+        use std::io::Write;
+        let mut f = std::fs::OpenOptions::new().append(true).open(self.st().segment_path()).expect("segment");
+        let mut bytes = b"ECWALR1!".to_vec();
+        bytes.push(1);
+        bytes.extend_from_slice(&500u64.to_le_bytes());
+        bytes.extend_from_slice(&[0xAB; 20]);
+        f.write_all(&bytes).expect("tear");
+        self.torn = true;
+    }
+    fn is_torn(&self) -> bool {
+        self.torn
     }
     fn ctx(&self, label: &str) -> ExternalActionTransactionContextV1 {
         base_ctx(label, self.epoch, WalDurabilityMode::StrictFilesystem)
@@ -678,6 +705,14 @@ fn oracle_after<S: TStore>(s: &Sys<S>, cl: &mut Client, cm: &Commits, pre_view: 
     let ids = cl.ids();
     let tag = s.tag;
     cl.checks += 1;
+    if s.store.is_torn() {
+        // a torn tail obstructs admission until writable WAL recovery (fix d38671b; regression guard)
+        let rec = ExternalActionCoordinatorV1::recover(&s.store);
+        if !matches!(rec, Err(PErr::WalStore(_))) || is_ready(&s.coord) {
+            cl.flag(format!("torn-tail-admitted[{tag}]:{what}"));
+        }
+        return;
+    }
     // (1) lifecycle prefix in the durable log + one claim per id
     let snapshot = match s.store.read_snapshot() {
         Ok(x) => x,
@@ -1130,6 +1165,9 @@ fn run_case<S: TStore>(mut a: Sys<S>, mut b: Sys<S>, ops: &[&str]) -> String {
                     }
                     other => panic!("op {other}"),
                 };
+                if fault == Fault::Torn && matches!(r, Res::Err(PErr::WalStore(_))) {
+                    s.store.tear();
+                }
                 // pre-op view (for crash points): recompute from a coordinator recovered from the pre snapshot
                 // is not possible for fs without a copy, so use the live view taken lazily below.
                 let _ = ids;
